@@ -731,10 +731,14 @@ template<typename T> Ebpps<T> decode_ebpps(const void* bytes, size_t size) {
   s.n = c.u64("n"); s.cum_wt = c.f64("cumulative weight"); s.wt_max = c.f64("max item weight"); s.rho = c.f64("rho"); s.c = c.f64("c");
   c.expect(s.c >= 0 && s.c <= double(s.k) + 1e-9, "c-out-of-range", std::to_string(s.c));
   const uint32_t full = uint32_t(s.c);
-  c.expect(s.has_partial == (s.c != double(full)), "partial-item-flag-vs-fractional-c", std::to_string(s.c));
-  s.items = rd_items<T>(c, full);
-  if (s.has_partial) s.partial = Item<T>::rd(c);
-  c.expect_end();
+  // the number of stored items is not a field: floor(c) full items, plus the partial item when c has a fractional part
+  std::vector<T> all;
+  while (c.left() > 0) all.push_back(Item<T>::rd(c));
+  const bool frac = s.c != double(full);
+  c.expect(all.size() == size_t(full) + (frac ? 1 : 0), "stored-item-count-vs-c", "c=" + std::to_string(s.c) + " stored items=" + std::to_string(all.size()));
+  c.expect(s.has_partial == frac, "partial-item-flag-vs-fractional-c", std::to_string(s.c));
+  if (s.has_partial) { s.partial = all.back(); all.pop_back(); }
+  s.items = all;
   return s;
 }
 
